@@ -5,7 +5,9 @@ cd "$(dirname "$0")/.."
 export CARGO_NET_OFFLINE=true
 mkdir -p .build evidence replays
 python3 tools/extract.py --repo "${VERIF_REPO:-/repo}" --out lean/ActixNet/Generated/Src.lean >/dev/null
-(cd lean && lake build)
+# warm the caches; every check rebuilds exactly what it needs and is the judge of what fails, so a model or
+# harness that does not build against this tree must not stop the set-up of the others
+(cd lean && lake build) || echo "setup: lake build reported failures (left to the checks)"
 cp -f "${VERIF_REPO:-/repo}/Cargo.lock" harness/Cargo.lock
-(cd harness && RUSTFLAGS="--cfg actix_net_verif" CARGO_TARGET_DIR="$PWD/../.build/target" cargo build --offline --bins)
+(cd harness && RUSTFLAGS="--cfg actix_net_verif" CARGO_TARGET_DIR="$PWD/../.build/target" cargo build --offline --bins) || echo "setup: cargo build reported failures (left to the checks)"
 echo setup-ok
